@@ -228,6 +228,8 @@ class CheckContext:
             self.outside_subset.append({"obligation": f"{self.prop}/{ident}", "reason": str(e)})
             return self.undecided(ident, f"outside subset: {e}", clause)
         except Unsupported as e:
+            if os.environ.get("PYVC_DEBUG"):
+                traceback.print_exc()
             self.outside_subset.append({"obligation": f"{self.prop}/{ident}", "reason": str(e)})
             return self.undecided(ident, f"outside subset: {e}", clause)
         except Exception as e:  # engine failure: undecided, never a violation
